@@ -10,6 +10,7 @@ never exceeds `len + 2048`, far from 2^63).
 -/
 import Nebula.Gen.PktFirewall
 import Nebula.Gen.PktOutside
+import Nebula.Gen.PktIputil
 
 namespace Nebula.Pkt
 
@@ -66,27 +67,32 @@ structure V6Walk where
   anyFrag : Bool    -- anyFragment
   deriving DecidableEq, Repr
 
-/-- `const maxIPv6ExtHeaders = 8` (function-local; tied by the correspondence boundary cases 7/8/9). -/
-def maxIPv6ExtHeaders : Nat := 8
+/-- `const maxIPv6ExtHeaders = 8` inside `IPv6FindUpperProtocol`, regenerated from the source. -/
+def maxIPv6ExtHeaders : Nat := Gen.iputil_maxIPv6ExtHeaders
 
-/-- the extension headers `IPv6FindUpperProtocol` walks (its three `case` lists) -/
-def isWalked (nh : Nat) : Bool := nh == 0 || nh == 43 || nh == 60 || nh == 44 || nh == 51
+/-- The `case` lists of `switch nextHeader` inside the loop, regenerated from the source:
+`case 0, 43, 60` (Hop-by-Hop, Routing, Destination), `case 44` (Fragment), `case 51` (AH) … -/
+def tlvTypes : List Nat := Gen.iputil_extHeaderWalkCases.getD 0 []
+def fragTypes : List Nat := Gen.iputil_extHeaderWalkCases.getD 1 []
+def ahTypes : List Nat := Gen.iputil_extHeaderWalkCases.getD 2 []
+/-- … and of the `switch nextHeader` after the loop: `case 0, 43, 44, 51, 60`. -/
+def afterLoopTypes : List Nat := Gen.iputil_extHeaderAfterLoopCases.getD 0 []
 
 /-- The loop of `IPv6FindUpperProtocol` (`for range maxIPv6ExtHeaders`) followed by the code after it.
 `fuel` = remaining iterations. -/
 def findUpperLoop (d : Bytes) : Nat → Nat → Nat → Bool → Res V6Walk
   | 0, nh, off, af =>
     -- after the loop (the `fix:` commit): fail closed on an unresolved chain, same bounds check as `default:`
-    if nh = 0 ∨ nh = 43 ∨ nh = 44 ∨ nh = 51 ∨ nh = 60 then .err .v6NoPayload
+    if nh ∈ afterLoopTypes then .err .v6NoPayload
     else if off > d.length then .err .v6NoPayload
     else .ok ⟨nh, off, false, af⟩
   | fuel + 1, nh, off, af =>
-    if nh = 0 ∨ nh = 43 ∨ nh = 60 then            -- Hop-by-Hop, Routing, Destination
+    if nh ∈ tlvTypes then                           -- case 0, 43, 60: Hop-by-Hop, Routing, Destination
       if d.length < off + 2 then .err .v6NoPayload else do
         let n ← idx d off
         let l ← idx d (off + 1)
         findUpperLoop d fuel n (off + (l + 1) * 8) af          -- (int(packet[offset+1]) + 1) << 3
-    else if nh = 44 then                             -- Fragment
+    else if nh ∈ fragTypes then                      -- case 44: Fragment
       if d.length < off + 8 then .err .v6NoPayload else do
         let b2 ← idx d (off + 2)
         let b3 ← idx d (off + 3)
@@ -96,7 +102,7 @@ def findUpperLoop (d : Bytes) : Nat → Nat → Nat → Bool → Res V6Walk
         else do
           let n ← idx d off
           findUpperLoop d fuel n (off + 8) true
-    else if nh = 51 then                             -- AH
+    else if nh ∈ ahTypes then                        -- case 51: AH
       if d.length < off + 2 then .err .v6NoPayload else do
         let n ← idx d off
         let l ← idx d (off + 1)
